@@ -86,7 +86,15 @@ def build(spec: dict):
                 fh.put(0, head)
                 lay.put(0, head)
                 skip = head.length
-            p = Pat(key_for(layer, i), ln - skip, base=skip)
+            cut = 0
+            if spec.get("nested_tail") and i * chunk + ln == size and ln - skip >= 1024:
+                # guest data whose last sector is the footer of a (fixed) VHD stored at the end of the guest disk: the bytes
+                # right in front of the real footer begin with the footer cookie
+                cut = 512
+                tail = Lit(footer_bytes({"kind": "fixed", "size": max(512, size - 512), "timestamp": 0x11111111}))
+                fh.put(size - 512, tail)
+                lay.put(size - 512, tail)
+            p = Pat(key_for(layer, i), ln - skip - cut, base=skip)
             fh.put(i * chunk + skip, p)
             lay.put(i * chunk + skip, p)
         fh.put(size, footer)
@@ -107,13 +115,25 @@ def build(spec: dict):
     else:
         fh.put(spec["table_offset"], _FillBat(nblocks, table))
     end = max(spec["table_offset"] + 4 * nblocks, spec["dyn_offset"] + 1024)
+    last_so = max((so for _b, so in spec["alloc"]), default=None)
     for b, so in spec["alloc"]:
         k = key_for(layer, b)
         fh.put(so * SECTOR, Lit(b"\xff" * ((bs // SECTOR + 7) // 8)))
-        fh.put((so + bms) * SECTOR, Pat(k, bs))
         ln = min(bs, size - b * bs)
-        if ln > 0:
-            lay.put(b * bs, Pat(k, ln))
+        if spec.get("nested_tail") and so == last_so and bs >= 1024:
+            # the block stored last in the file ends with the footer of a VHD kept inside the guest: the sector in front of the
+            # real footer begins with the footer cookie
+            tail = Lit(footer_bytes({"kind": "fixed", "size": bs, "timestamp": 0x11111111}))
+            fh.put((so + bms) * SECTOR, Pat(k, bs - 512))
+            fh.put((so + bms) * SECTOR + bs - 512, tail)
+            if ln > 0:
+                lay.put(b * bs, Pat(k, min(ln, bs - 512)))
+                if ln == bs:
+                    lay.put(b * bs + bs - 512, tail)
+        else:
+            fh.put((so + bms) * SECTOR, Pat(k, bs))
+            if ln > 0:
+                lay.put(b * bs, Pat(k, ln))
         end = max(end, (so + bms) * SECTOR + bs)
     end = ((end + 511) // 512) * 512
     fh.put(end, footer)
